@@ -3,6 +3,7 @@ package main
 import (
 	"fmt"
 	"go/ast"
+	"go/build"
 	"go/parser"
 	"go/token"
 	"os"
@@ -13,14 +14,16 @@ import (
 
 // pkg is one parsed Go package of the repository.
 type pkg struct {
-	name     string
-	fset     *token.FileSet
-	files    []*ast.File
-	funcs    map[string]*ast.FuncDecl // "name" or "Recv.name"
-	named    map[string]*typ          // package-level named types
-	errVars  map[string]bool          // package-level `var X = errors.New(..)`
-	assigned map[string]bool          // package-level variables assigned inside some function other than init
-	imp      map[string]string
+	name         string
+	fset         *token.FileSet
+	files        []*ast.File
+	funcs        map[string]*ast.FuncDecl // "name" or "Recv.name"
+	named        map[string]*typ          // package-level named types
+	errVars      map[string]bool          // package-level `var X = errors.New(..)`
+	assigned     map[string]bool          // package-level variables that some function other than init may change (globals.go)
+	assignedInit map[string]bool          // .. that init() may change
+	assignedPkg  map[string]bool          // imported packages (base name) whose objects some function may change
+	imp          map[string]string
 }
 
 func (p *pkg) pos(n ast.Node) string { return p.fset.Position(n.Pos()).String() }
@@ -47,17 +50,26 @@ func funcKey(fd *ast.FuncDecl) string {
 
 func loadPkg(repo, name string) *pkg {
 	p := &pkg{name: name, fset: token.NewFileSet(), funcs: map[string]*ast.FuncDecl{},
-		named: map[string]*typ{}, errVars: map[string]bool{}, assigned: map[string]bool{}}
+		named: map[string]*typ{}, errVars: map[string]bool{}, assigned: map[string]bool{},
+		assignedInit: map[string]bool{}, assignedPkg: map[string]bool{}}
 	dir := filepath.Join(repo, name)
 	ents, err := os.ReadDir(dir)
 	if err != nil {
 		fatalf("%v", err)
 	}
+	// the files the Go compiler takes for linux/amd64 without custom tags: a file excluded by a
+	// build constraint must not supply (or hide) declarations
+	ctx := build.Default
+	ctx.GOOS, ctx.GOARCH, ctx.BuildTags, ctx.CgoEnabled = "linux", "amd64", nil, false
 	var names []string
 	for _, e := range ents {
 		n := e.Name()
 		if strings.HasSuffix(n, ".go") && !strings.HasSuffix(n, "_test.go") {
-			names = append(names, n)
+			if ok, err := ctx.MatchFile(dir, n); err != nil {
+				fatalf("%v", err)
+			} else if ok {
+				names = append(names, n)
+			}
 		}
 	}
 	sort.Strings(names)
@@ -90,6 +102,7 @@ func loadPkg(repo, name string) *pkg {
 			}
 		}
 	}
+	p.checkPredeclared()
 	for _, f := range p.files {
 		for _, d := range f.Decls {
 			switch d := d.(type) {
@@ -99,7 +112,7 @@ func loadPkg(repo, name string) *pkg {
 					fatalf("%s: duplicate function %s", p.pos(d), k)
 				}
 				p.funcs[k] = d
-				if k != "init" && d.Body != nil {
+				if d.Body != nil {
 					p.scanGlobalAssign(d)
 				}
 			case *ast.GenDecl:
@@ -120,6 +133,53 @@ func loadPkg(repo, name string) *pkg {
 		}
 	}
 	return p
+}
+
+// predeclared: the universe scope of Go.  The translator gives these names
+// their predeclared meaning wherever no local variable hides them.
+var predeclared = map[string]bool{}
+
+func init() {
+	for _, w := range strings.Fields(`any bool byte comparable complex64 complex128 error float32 float64 int int8 int16
+ int32 int64 rune string uint uint8 uint16 uint32 uint64 uintptr true false iota nil append cap clear close complex copy
+ delete imag len make max min new panic print println real recover`) {
+		predeclared[w] = true
+	}
+}
+
+// checkPredeclared: a package-level declaration (or import name) that hides a
+// predeclared identifier (func copy, const false, ..) would silently change
+// the meaning of every use: fatal.
+func (p *pkg) checkPredeclared() {
+	bad := func(n *ast.Ident) {
+		if n != nil && predeclared[n.Name] {
+			fatalf("%s: package-level declaration of %s hides the predeclared identifier", p.pos(n), n.Name)
+		}
+	}
+	for _, f := range p.files {
+		for _, is := range f.Imports {
+			bad(is.Name)
+		}
+		for _, d := range f.Decls {
+			switch d := d.(type) {
+			case *ast.FuncDecl:
+				if d.Recv == nil {
+					bad(d.Name)
+				}
+			case *ast.GenDecl:
+				for _, s := range d.Specs {
+					switch s := s.(type) {
+					case *ast.ValueSpec:
+						for _, n := range s.Names {
+							bad(n)
+						}
+					case *ast.TypeSpec:
+						bad(s.Name)
+					}
+				}
+			}
+		}
+	}
 }
 
 // namedType recognises the declared types the translator knows; a struct is
@@ -175,55 +235,4 @@ func (p *pkg) namedType(ts *ast.TypeSpec) *typ {
 		}
 	}
 	return nil
-}
-
-// scanGlobalAssign records package-level identifiers that are assigned in a
-// function body (x = .., x.f = ..): a global used as a constant by the
-// translator must not be among them.
-func (p *pkg) scanGlobalAssign(fd *ast.FuncDecl) {
-	locals := map[string]bool{}
-	addFields := func(fl *ast.FieldList) {
-		if fl == nil {
-			return
-		}
-		for _, f := range fl.List {
-			for _, n := range f.Names {
-				locals[n.Name] = true
-			}
-		}
-	}
-	addFields(fd.Recv)
-	addFields(fd.Type.Params)
-	addFields(fd.Type.Results)
-	ast.Inspect(fd.Body, func(n ast.Node) bool {
-		switch s := n.(type) {
-		case *ast.AssignStmt:
-			for _, l := range s.Lhs {
-				root := l
-				for {
-					if se, ok := root.(*ast.SelectorExpr); ok {
-						root = se.X
-						continue
-					}
-					if ie, ok := root.(*ast.IndexExpr); ok {
-						root = ie.X
-						continue
-					}
-					break
-				}
-				if id, ok := root.(*ast.Ident); ok {
-					if s.Tok == token.DEFINE {
-						locals[id.Name] = true
-					} else if !locals[id.Name] {
-						p.assigned[id.Name] = true
-					}
-				}
-			}
-		case *ast.ValueSpec:
-			for _, n := range s.Names {
-				locals[n.Name] = true
-			}
-		}
-		return true
-	})
 }
